@@ -649,6 +649,12 @@ pub fn main(args: &[String]) {
                     ev["info_exit"] = json!(o.status.code().unwrap_or(-1));
                     ev["info"] = crate::clone_l1::parse_info(&(String::from_utf8_lossy(&o.stdout).to_string() + "\n" + &String::from_utf8_lossy(&o.stderr)));
                 }
+                // bita info --metadata-key: the value of a metadata entry, byte for byte
+                if let Some((k, _)) = conf.metadata.last() {
+                    if let Ok(o) = Command::new(&cli.bita).args(["info", "--metadata-key", k, &ip]).env("RUST_BACKTRACE", "0").output() {
+                        ev["info_meta"] = json!({"k": k, "v": hex(&o.stdout), "exit": o.status.code().unwrap_or(-1)});
+                    }
+                }
                 let _ = std::fs::remove_file(&ip);
             }
         } else {
